@@ -1,0 +1,42 @@
+//! Verification hooks. Compiled only with `--cfg kyrodb_verif`; the normal build does not
+//! contain this module and behaves exactly as before.
+//!
+//! `cancel_point`: every cancellation check of the ANN search (`cancellation_requested` in
+//! `ann_backend.rs`) reports here when the caller passed a cancellation flag. A harness arms a
+//! per-thread countdown; when the n-th cancellation point of that thread is reached the hook
+//! tells the check to raise the caller's own flag there — exactly what another thread raising
+//! the flag at that instant would do. This lets a checker enumerate "cancellation at every
+//! point" deterministically instead of racing a second thread against the search.
+
+use std::cell::Cell;
+
+thread_local! {
+    static COUNTDOWN: Cell<u64> = const { Cell::new(0) };
+    static SEEN: Cell<u64> = const { Cell::new(0) };
+}
+
+/// Arm the calling thread: its `n`-th cancellation point from now (n >= 1) raises the flag.
+/// `0` disarms. Also resets the counter returned by [`cancel_points_seen`].
+pub fn arm_cancel_at(n: u64) {
+    COUNTDOWN.with(|c| c.set(n));
+    SEEN.with(|c| c.set(0));
+}
+
+/// Cancellation points reached by the calling thread since the last [`arm_cancel_at`].
+pub fn cancel_points_seen() -> u64 {
+    SEEN.with(|c| c.get())
+}
+
+/// Called by the engine at every cancellation check that has a flag. Returns true exactly once,
+/// at the armed point.
+pub(crate) fn cancel_point() -> bool {
+    SEEN.with(|c| c.set(c.get() + 1));
+    COUNTDOWN.with(|c| {
+        let left = c.get();
+        if left == 0 {
+            return false;
+        }
+        c.set(left - 1);
+        left == 1
+    })
+}
